@@ -36,6 +36,8 @@ RULE_DOC = {
     'R12': 'tail expression `E.iter().any(|v| C)` -> `for i in 0..E.len() { let v = &E[i]; if C { return true } } false`',
     'R13': '`for x in &mut E {` -> `for i in 0..E.len() { let x = &mut E[i];` (std: iter_mut visits the elements in index order)',
     'R17': '`let v: Vec<T> = E.iter().map(|&x| F).collect();` -> `let mut v = Vec::new(); for i in 0..E.len() { let x = E[i]; v.push(F); }`',
+    'R22': '`if let Some(&x) = E {` -> `if let Some(x__r) = E { let x = *x__r;` (definition of a reference pattern; Verus has no ref patterns)',
+    'M3': '`fn f(mut self, ..)` -> `fn f(self, ..) { let mut self__ = self; ..` with `self` renamed to `self__` in the body (Verus has no `mut self` receivers; contracts still speak about `self`)',
     'R8t': 'tail `M.values().filter(|p| C).map(|q| E).min().unwrap_or_else(|| D)` -> `let mut m__: Option<T> = None; for (k__r, p) in M.iter() { if (C) { let q = p; m__ = opt_min(m__, E); } } match m__ { Some(x__) => x__, None => D }` (same fold as R8; unwrap_or_else spelled as a match)',
     'R20': '`M.entry(K).or_default().push(V);` -> `entry_or_default_push(&mut M, K, V);` - the three chained std calls are outlined into a helper whose body is the same chain; its contract (append V to the bucket of K, creating the bucket if absent; other keys untouched) is ASSUMED (std HashMap entry API), listed under trusted',
     'R21': '`E.iter().filter(|t| P).cloned().collect()` (block tail) -> `{ let src__ = &E; let mut out__: Vec<T> = Vec::new(); for t in src__.iter() { if P { out__.push(t.clone()); } } out__ }` (P verbatim; `t` is `&T` instead of `&&T`, auto-deref makes no difference for method calls)',
@@ -260,6 +262,23 @@ class Piece:
                % (var, (': ' + ty) if ty else '', ind, fm.group(1), m.group(1), ind, fm.group(2).strip(), mm.group(1), fm.group(1), var, fold, var, mm.group(2).strip(), ind))
         self.text = text[:m.start()] + new + text[end + 1:]
         self._fired('R8', '%s of filtered/mapped map values -> loop + %s' % (names[3], fold))
+        return self
+
+    def R22(self):
+        return self.resub('R22', r'if let Some\(&(\w+)\) = ([^\n{]+?) \{', lambda m: 'if let Some(%s__r) = %s { let %s = *%s__r;' % (m.group(1), m.group(2), m.group(1), m.group(1)))
+
+    def M3(self):
+        text = self.text
+        code = scan(text)
+        m = re.search(r'\bfn\s+\w+\s*\(\s*mut self\b', text)
+        if not m:
+            raise LostAnchor('rule M3 in %s: no `mut self` receiver' % self.label)
+        bo, ch = body_open(text, code, m.start())
+        bc = match_close(text, code, bo)
+        body = re.sub(r'\bself\b', 'self__', text[bo + 1:bc])
+        head = text[:bo + 1].replace('mut self', 'self', 1)
+        self.text = head + '\n        let mut self__ = self;' + body + text[bc:]
+        self._fired('M3', '`mut self` receiver -> local rebinding')
         return self
 
     def R8t(self, ty):
